@@ -99,6 +99,7 @@ Tg(segs, q) == [segs |-> segs, query |-> q]
 TargetsQuick == {Tg(<<PlainSeg, p>>, NoQuery) : p \in TargetPieces}
            \cup {Tg(<<p, PlainSeg>>, q) : p \in TargetPieces, q \in {[raw |-> "?", norm |-> "", class |-> "none"]}}
            \cup {Tg(<<EmptySeg, PlainSeg>>, NoQuery), Tg(<<EmptySeg, EmptySeg, PlainSeg>>, NoQuery),
+                 Tg(<<EmptySeg, Pc("a%2Fb", "a/b", "pct-encoded")>>, NoQuery),      \* "//" followed by what could not be a host
                  Tg(<<EmptySeg, Same("host.test:8080", "colon-at"), PlainSeg>>, [raw |-> "?x=1&y=%20z", norm |-> "?x=1&y=%20z", class |-> "pct-encoded"])}
            \cup {Tg(<<PlainSeg>>, q) : q \in TargetQueries}
            \cup {Tg(<<Pc("a%2Fb", "a/b", "pct-encoded"), Same("", "unreserved")>>, q) : q \in TargetQueries}
